@@ -58,7 +58,7 @@ def judge(plan: dict, tr: P.Trace):
 
 
 def gen_plan(rng, i: int, tier: str) -> dict:
-    kind = rng.choice(("identical-offline", "identical-offline", "identical-online-seed", "identical-online-pub", "mixed", "mixed", "concurrent"))
+    kind = rng.choice(("identical-offline", "identical-offline", "identical-online-seed", "identical-online-pub", "mixed", "mixed", "concurrent", "fork"))
     hash_name = rng.choice(offline.HASHES)
     secret = rng.choice(offline.SECRETS)
     rk = [i % 5, hash_name, secret]
@@ -72,6 +72,14 @@ def gen_plan(rng, i: int, tier: str) -> dict:
         fl = rng.choice(("sync", "async"))
         for _ in range(n):
             ops.append({"op": "protect", "fl": fl, "sid": offline.SID_A, "rk": 0, "net": "offline", "data": data, "same_data": True})
+    elif kind == "fork":
+        # one process protects, forks, and parent and child both keep protecting with identical arguments
+        ops.append({"op": "load_key", "rk": 0})
+        for _ in range(rng.randint(1, 2)):
+            ops.append({"op": "protect", "fl": "sync", "sid": offline.SID_A, "rk": 0, "net": "offline", "data": data, "same_data": True})
+        ops.append({"op": "fork"})
+        for _ in range(rng.randint(1, 3)):
+            ops.append({"op": "protect", "fl": "sync", "sid": offline.SID_A, "rk": 0, "net": "offline", "data": data, "same_data": True})
     elif kind == "identical-online-seed":
         fl = rng.choice(("sync", "async"))
         for _ in range(min(n, 8)):
@@ -106,13 +114,14 @@ class C19(common.Check):
     level = "exploration"
     rule = ("case = a history (plan) of 2..64 protect calls at a frozen simulated instant with a ledger entropy source: identical arguments "
             "offline (root key), identical online (seed reply / public-key reply for DH, P256, P384), mixed histories with interleaved "
-            "unprotects and cache reuse, and concurrent async groups sharing one cache (PRNG-scheduled). From each emitted blob the "
+            "unprotects and cache reuse, concurrent async groups sharing one cache (PRNG-scheduled), and histories in which the process forks "
+            "after a protect and parent and child both go on protecting (the child's entropy source is re-keyed, buffered state is shared). From each emitted blob the "
             "reference extracts GCM nonce and key_info and recovers the CEK; all must be pairwise distinct within the history. "
             "Non-trivial = history with >= 2 successful protects; distinct = distinct plan.")
     components = {"client": "real (public API, KeyCache, _encrypt_blob, cek_generate, new_kek)", "entropy": "simulated (os.urandom and AESGCM.generate_key seams, ledger)",
                   "clock": "simulated, frozen", "DC": "model (RefDC)", "security context": "stub (StubCtx)", "blob opener": "model (ref.cms/ref.gkdi)"}
     assumptions = ["the simulated entropy source never repeats a draw; real-world collision probability of fresh 96/256-bit values is outside the claim"]
-    required_fired = ("mode_pub", "mode_nonce", "provenance_ok")
+    required_fired = ("mode_pub", "mode_nonce", "provenance_ok", "forked_histories")
 
     def cases(self, tier, seed):
         rng = prng.stream(seed, "C19")
@@ -120,8 +129,40 @@ class C19(common.Check):
         return [gen_plan(rng, i, tier) for i in range(n)]
 
     def run_case(self, case):
+        import json
+        import os
+
         tr = P.execute_plan(case)
+        if tr.is_child:  # forked half: hand the blobs to the parent and vanish without running any exit handler
+            try:
+                blobs_ = [[ot.idx, ot.outcome.value.hex() if ot.outcome.kind == "ok" and isinstance(ot.outcome.value, (bytes, bytearray)) else None,
+                           ot.plaintext.hex() if ot.plaintext is not None else None] for ot in tr.ops if ot.op["op"] == "protect"]
+                os.write(tr.child_wfd, json.dumps(blobs_).encode())
+            finally:
+                os._exit(0)
+        if tr.child_pid:
+            data = b""
+            while True:
+                chunk = os.read(tr.child_rfd, 65536)
+                if not chunk:
+                    break
+                data += chunk
+            os.close(tr.child_rfd)
+            os.waitpid(tr.child_pid, 0)
+            fork_at = next(ot.idx for ot in tr.ops if ot.op["op"] == "fork")
+            for idx, blob_hex, pt_hex in json.loads(data or b"[]"):
+                if idx > fork_at and blob_hex is not None:
+                    # the child's protects after the fork join the history as additional operations
+                    ot = P.OpTrace(1000 + idx, dict(tr.ops[idx].op, fl=tr.ops[idx].op["fl"], forked_child=True))
+                    from checks import drive as _d
+
+                    ot.outcome = _d.Outcome("ok", bytes.fromhex(blob_hex))
+                    ot.plaintext = bytes.fromhex(pt_hex) if pt_hex is not None else None
+                    ot.draws = []
+                    tr.ops.append(ot)
         viol, probes = judge(case, tr)
+        if tr.child_pid:
+            probes["forked_histories"] = 1
         return {"viol": viol, "digest": tr.world.digest(), "key": common.key_hash(case) if probes.get("protects_ok", 0) >= 2 else None,
                 "fired": {"entropy_draws": tr.world.entropy.counter, "concurrent_groups": int(case["kind"] == "concurrent"),
                           "choice_points": tr.world.stats.get("choice_points", 0)},
@@ -129,6 +170,8 @@ class C19(common.Check):
                 "vtime_ns": tr.world.stats.get("vtime_ns", 0)}
 
     def shrink(self, case):
+        if case.get("kind") == "fork":
+            return
         ops = case["ops"]
         for i in range(len(ops)):
             if any(isinstance(o.get("blob"), dict) and "from_op" in o["blob"] for o in ops):
